@@ -196,3 +196,156 @@ Example c13_example_rejections :
     = DErr TypeErr.
 Proof. vm_compute. repeat split; reflexivity. Qed.
 Print Assumptions c13_example_rejections.
+
+(* ======================================================================================
+   Round 2: the kernels themselves are regenerated from the CURRENT libdist.pyx
+   (translator/tr_distkern.py -> Gen/DistKernGen.v: gen_euclidean, gen_manhattan, gen_hamming as
+   lists of prange phases of statements `out[k] = E(out)`, gen_public, gen_supports) and
+   cluster/util.py:_get_distance_method (gen_get_distance_method).  Proofs: Proof/DistKernGenProofs.v. *)
+From Coq Require Import String.
+From EV Require Import DistKernBase DistKernGen DistKernGenProofs.
+Open Scope string_scope.
+Open Scope list_scope.
+Open Scope Z_scope.
+
+(* mechanism "prange over samples; each iteration writes only out[i]": every statement of every
+   prange iteration i of every generated kernel assigns cell i and its right-hand side reads no
+   other cell of `out` *)
+Theorem c13_gen_statements_stay_on_own_cell : forall (A : Type) (ar : arith A) X y m mt k,
+    phase_own ar (ph_of k (gen_public ar mt X y m)).
+Proof. exact (@gen_phases_own). Qed.
+Print Assumptions c13_gen_statements_stay_on_own_cell.
+
+(* ... in the vocabulary of Base/PFor.v: the iteration bodies satisfy own_cell_only and are
+   step_body's (write their own cell only) *)
+Theorem c13_gen_own_cell_only : forall (A : Type) (ar : arith A) X y m mt k,
+    own_cell_only (a_lit ar 0) (iter_body ar (ph_of k (gen_public ar mt X y m))).
+Proof. exact gen_own_cell_only. Qed.
+Print Assumptions c13_gen_own_cell_only.
+
+Theorem c13_gen_iteration_writes_own_cell : forall (A : Type) (ar : arith A) X y m mt k i (o : list A),
+    exec_stmts (ph_of k (gen_public ar mt X y m) i) o =
+    step_body (iter_body ar (ph_of k (gen_public ar mt X y m))) o i.
+Proof. exact gen_iteration_writes_own_cell. Qed.
+Print Assumptions c13_gen_iteration_writes_own_cell.
+
+(* clause "number of OpenMP threads", on the generated text, statement granularity *)
+Theorem c13_gen_phase_any_interleaving : forall (A : Type) (ar : arith A) X y m mt k chunks n l (o : list A),
+    Permutation (List.concat chunks) (seq 0 n) ->
+    Interleave (map (flat_map (ph_of k (gen_public ar mt X y m))) chunks) l ->
+    exec_stmts l o = run_phase (ph_of k (gen_public ar mt X y m)) (seq 0 n) o.
+Proof. exact gen_phase_any_interleaving. Qed.
+Print Assumptions c13_gen_phase_any_interleaving.
+
+(* the generated kernels ARE the model's loop phases (Model/Dist.v), any arithmetic, any order of
+   the iterations of each prange: _euclidean = zeroing prange; accumulating prange; sqrt prange *)
+Theorem c13_gen_euclidean_is_model : forall (A : Type) (ar : arith A) X y m s1 s2 s3 (out : list A),
+    run_phases (gen_euclidean ar X y m) [s1; s2; s3] out =
+    run_ops (sched_ops (post_prog (gpost ar Euclid m)) s3)
+            (kernel_two_loops (a_lit ar 0) (gstep ar Euclid) X y m s1 s2 out).
+Proof. exact (@gen_euclidean_run). Qed.
+Print Assumptions c13_gen_euclidean_is_model.
+
+(* _manhattan = zeroing prange; accumulating prange *)
+Theorem c13_gen_manhattan_is_model : forall (A : Type) (ar : arith A) X y m s1 s2 (out : list A),
+    run_phases (gen_manhattan ar X y m) [s1; s2] out =
+    kernel_two_loops (a_lit ar 0) (gstep ar Manhattan) X y m s1 s2 out.
+Proof. exact (@gen_manhattan_run). Qed.
+Print Assumptions c13_gen_manhattan_is_model.
+
+(* _hamming = one prange: zero; accumulate; divide by n_features *)
+Theorem c13_gen_hamming_is_model : forall (A : Type) (ar : arith A) X y m s (out : list A),
+    run_phases (gen_hamming ar X y m) [s] out =
+    run_ops (sched_ops (fun i => ham_prog (a_lit ar 0) (gstep ar Hamming) X y m i ++
+                                 post_prog (gpost ar Hamming m) i) s) out.
+Proof. exact (@gen_hamming_run). Qed.
+Print Assumptions c13_gen_hamming_is_model.
+
+(* the accumulation statement of the generated text is the model's step (difference in double,
+   square / abs / != test), in ideal and in exact-double arithmetic *)
+Theorem c13_gen_step_is_ideal_step : forall sq dv mt x yv acc,
+    gstep (ar_ideal sq dv) mt x yv acc = step_ideal mt x yv acc.
+Proof. exact gstep_ideal. Qed.
+Print Assumptions c13_gen_step_is_ideal_step.
+
+Theorem c13_gen_row_is_mach_row : forall sq dv mt X y m i,
+    row_value (a_lit (ar_mach sq dv) 0) (gstep (ar_mach sq dv) mt) X y m i =
+    row_value (Some 0) (step_mach mt) X y m i.
+Proof. exact row_value_gstep_mach. Qed.
+Print Assumptions c13_gen_row_is_mach_row.
+
+(* value left in cell i by the generated kernel, any arithmetic, any schedule of every prange *)
+Theorem c13_gen_kernel_value : forall (A : Type) (ar : arith A) X y m mt n s1 s2 s3 (out : list A),
+    List.length out = n ->
+    Permutation s1 (seq 0 n) -> Permutation s2 (seq 0 n) -> Permutation s3 (seq 0 n) ->
+    run_phases (gen_public ar mt X y m) (scheds mt s1 s2 s3) out =
+    map (fun i => gpost ar mt m (row_value (a_lit ar 0) (gstep ar mt) X y m i)) (seq 0 n).
+Proof. exact (@gen_kernel_value). Qed.
+Print Assumptions c13_gen_kernel_value.
+
+(* clause 1 end to end on generated text only: generated validation accepts => the generated
+   kernel, run on the buffer the validation hands over (fresh or the caller's), leaves
+   sqrt / id / (. / width) of the specification norm of every row, whatever the schedule *)
+Theorem c13_gen_call_ideal : forall sq dv mt X y out cells s1 s2 s3,
+    out_wf out -> distance_ideal mt X y out = DOk cells ->
+    Permutation s1 (seq 0 (dim X 0)) -> Permutation s2 (seq 0 (dim X 0)) ->
+    Permutation s3 (seq 0 (dim X 0)) ->
+    run_phases (gen_public (ar_ideal sq dv) mt X y (dim y 0)) (scheds mt s1 s2 s3)
+               (cells_of 0 (gen_prepare (obj X) (obj y) (option_map fst out)) out) =
+    map (gpost (ar_ideal sq dv) mt (dim y 0)) (spec mt (rows X) (vec y)) /\
+    cells = spec mt (rows X) (vec y).
+Proof. exact gen_call_ideal. Qed.
+Print Assumptions c13_gen_call_ideal.
+
+(* clause "exact for every dtype" on the generated text: within the magnitude bound no operation
+   of the generated kernel rounds *)
+Theorem c13_gen_kernel_double_exact : forall sq dv mt Bv X y m n s1 s2 s3 (out : list (option Z)),
+    List.length out = n ->
+    Permutation s1 (seq 0 n) -> Permutation s2 (seq 0 n) -> Permutation s3 (seq 0 n) ->
+    0 <= Bv -> 2 * Bv <= B53 -> Z.of_nat m * term_bound mt Bv <= B53 ->
+    (forall i j, (i < n)%nat -> (j < m)%nat -> Z.abs (get2 X i j) <= Bv /\ Z.abs (get1 y j) <= Bv) ->
+    run_phases (gen_public (ar_mach sq dv) mt X y m) (scheds mt s1 s2 s3) out =
+    map (fun i => gpost (ar_mach sq dv) mt m (Some (row_value 0 (step_ideal mt) X y m i))) (seq 0 n).
+Proof. exact gen_kernel_mach_exact. Qed.
+Print Assumptions c13_gen_kernel_double_exact.
+
+(* "every supported element type": the fused types of the .pyx are the model's dispatch table *)
+Theorem c13_gen_supports_is_model : forall mt d, gen_supports mt d = supports mt d.
+Proof. exact gen_supports_is_model. Qed.
+Print Assumptions c13_gen_supports_is_model.
+
+(* mechanism "metric names map to kernels" (cluster/util.py:_get_distance_method, translated) *)
+Theorem c13_metric_names_map_to_kernels : forall s,
+    method_kernel (gen_get_distance_method (MStr s)) =
+    if String.eqb s "euclidean" then Some Euclid
+    else if String.eqb s "cityblock" || String.eqb s "manhattan" then Some Manhattan
+    else None.
+Proof. exact get_distance_method_kernels. Qed.
+Print Assumptions c13_metric_names_map_to_kernels.
+
+Theorem c13_metric_callable_is_returned : gen_get_distance_method MCallable = RSelf.
+Proof. exact get_distance_method_callable. Qed.
+Print Assumptions c13_metric_callable_is_returned.
+
+Theorem c13_metric_unknown_is_rejected : forall s,
+    ~ In s ("rmsd" :: "manhattan" :: gen_msmbuilder_libdistance_metrics) ->
+    gen_get_distance_method (MStr s) = RImproperlyConfigured.
+Proof. exact get_distance_method_unknown_string. Qed.
+Print Assumptions c13_metric_unknown_is_rejected.
+
+(* ---- the generated kernels run on the example call above (Fortran-ordered X, reversed y),
+   prange iterations in scrambled orders, integer square root / percentage for sqrt and division *)
+Example c13_example_generated_kernels :
+  let ar := ar_ideal Z.sqrt (fun a n => 100 * a / n) in
+  run_phases (gen_public ar Euclid exX exy 2) [[2; 0; 1]; [1; 2; 0]; [0; 2; 1]]%nat [9; 9; 9] = [3; 3; 5] /\
+  run_phases (gen_public ar Manhattan exX exy 2) [[2; 0; 1]; [1; 2; 0]]%nat [9; 9; 9] = [3; 3; 7] /\
+  run_phases (gen_public ar Hamming exX exy 2) [[1; 0; 2]]%nat [9; 9; 9] = [50; 50; 100] /\
+  run_phases (gen_public (ar_mach (option_map Z.sqrt) (fun a n => option_map (fun v => v / n) a))
+                         Euclid exX exy 2) [[2; 0; 1]; [1; 2; 0]; [0; 2; 1]]%nat [None; None; None]
+    = [Some 3; Some 3; Some 5] /\
+  method_kernel (gen_get_distance_method (MStr "cityblock")) = Some Manhattan /\
+  gen_get_distance_method (MStr "hamming") = RLibdistance /\
+  gen_get_distance_method (MStr "rmsd") = RAttr "md" "rmsd" /\
+  gen_get_distance_method (MStr "no-such-metric") = RImproperlyConfigured.
+Proof. vm_compute. repeat split; reflexivity. Qed.
+Print Assumptions c13_example_generated_kernels.
